@@ -81,10 +81,12 @@ std::string location_token(const ipr::Source_location& l)
    return t + " ";
 }
 
-// F<digits>:<digits>[:<digits>]<space> not preceded by an identifier character
+// F<digits>:<digits>[:<digits>]<space>.  No spelling of this profile can produce that shape (the safe alphabet has no 'F'
+// followed by a digit), so it is a location token wherever it stands -- also right after an identifier character: the
+// printer writes locations through the raw stream, without the padding it puts between words.
 bool token_at(const std::string& t, std::size_t i, std::size_t* len)
 {
-   if (t[i] != 'F' || (i > 0 && (std::isalnum(static_cast<unsigned char>(t[i - 1])) || t[i - 1] == '_'))) return false;
+   if (t[i] != 'F') return false;
    std::size_t j = i + 1;
    auto digits = [&] {
       const std::size_t b = j;
@@ -119,11 +121,14 @@ std::string strip_tokens(const std::string& t, long* count)
    return r;
 }
 
+// The comparison of an on-print (its tokens removed) with the off-print ignores blanks: a location token takes the place
+// of the blank the printer would have put between two words (it is written through the raw stream and brings its own
+// trailing blank), so the two texts differ in blanks around tokens and in nothing else.
 std::string squeeze(const std::string& t)
 {
    std::string r;
    for (char ch : t)
-      if (ch != ' ' || r.empty() || r.back() != ' ') r += ch;
+      if (ch != ' ') r += ch;
    return r;
 }
 
